@@ -44,6 +44,16 @@ def _dry_infeasible(cfg, n) -> bool:
     return any((t == "_dry_run" and not p) or (t == "not _dry_run" and p) for t, p in cfg.facts(n))
 
 
+def _orch_locals(fn, what: str) -> Set[str]:
+    """locals bound to `_get_orch_callable("<what>", ...)` (the monkeypatch facade) plus the plain name"""
+    out = {what, what.lstrip("_")}
+    for x in walk_no_defs(fn.node):
+        if isinstance(x, ast.Assign) and len(x.targets) == 1 and isinstance(x.targets[0], ast.Name) and isinstance(x.value, ast.Call) \
+                and call_tail(x.value) in ("_get_orch_callable", "_get_stage_callable") and x.value.args and const_str(x.value.args[0]) in (what, "_" + what.lstrip("_")):
+            out.add(x.targets[0].id)
+    return out
+
+
 def rule_ro(ctx) -> None:
     fn = ctx.func(RUN_TURN)
     cfg = ctx.cfg(fn)
@@ -112,7 +122,8 @@ def rule_commit(ctx) -> None:
     fn = ctx.func(BATCH)
     cfg = ctx.cfg(fn)
     rd = ctx.rd(fn)
-    applies = [(n, c) for n in cfg.nodes for c in node_calls(n) if isinstance(c.func, ast.Name) and c.func.id == "apply_changes"]
+    _ac = _orch_locals(fn, "apply_changes")
+    applies = [(n, c) for n in cfg.nodes for c in node_calls(n) if isinstance(c.func, ast.Name) and c.func.id in _ac]
     ctx.floor("C10.COMMIT", "apply_changes call sites in the batch driver", len(applies), 1)
     for n, c in applies:
         loops = [st for st, part in enclosing(ctx.prog, fn, c) if isinstance(st, ast.For) and part == "body"]
@@ -121,7 +132,10 @@ def rule_commit(ctx) -> None:
             hn = [h for h in cfg.nodes if h.kind == "iter" and h.ast is loops[0]]
             uvi = rd.unique_value(it.id, hn[0]) if hn else None
             it = uvi[0] if uvi else it
-        ok = len(loops) == 1 and isinstance(it, ast.Call) and call_tail(it) == "_sort_turn_buffers" and src(it.args[0]) == "buffers"
+        # the list being sorted is the one the compute phase appended its buffers to
+        filled = {src(x.func.value) for x in walk_no_defs(fn.node) if isinstance(x, ast.Call) and call_tail(x) == "append" and x.args and isinstance(x.args[0], ast.Call)
+                  and isinstance(x.args[0].func, ast.Name) and x.args[0].func.id in _orch_locals(fn, "_run_turn_compute")}
+        ok = len(loops) == 1 and isinstance(it, ast.Call) and call_tail(it) == "_sort_turn_buffers" and src(it.args[0]) in filled
         ctx.check(ok, "C10.COMMIT", f"{fn.qual}/commit-order", fn.loc(c), "one apply_changes per buffer, iterating _sort_turn_buffers(buffers)",
                   "commits do not iterate _sort_turn_buffers(buffers) exactly once per buffer (commit order depends on compute completion / listing order)")
         lv = loops[0].target.id if loops and isinstance(loops[0].target, ast.Name) else "buf"
@@ -135,14 +149,18 @@ def rule_commit(ctx) -> None:
         ctx.check(okd, "C10.COMMIT", f"{fn.qual}/commit-own-deltas", fn.loc(c), "the committed deltas are the buffer's own approved deltas", "the committed deltas are not taken from the buffer being committed")
     stg = [(n, c) for n in cfg.nodes for c in node_calls(n) if call_tail(c) == "stage" and c.args and const_str(c.args[0]) == "apply.jsonl"]
     ctx.floor("C10.COMMIT", "apply.jsonl staging sites", len(stg), 1)
-    for n, c in stg:
+    for i_s, (n, c) in enumerate(sorted(stg, key=lambda t: t[0].id), 1):
         k = c.args[1] if len(c.args) > 1 else None
         ok = False
-        if isinstance(k, ast.Name):
+        loops = [st for st, part in enclosing(ctx.prog, fn, c) if isinstance(st, ast.For) and part == "body"]
+        lv = loops[0].target.id if loops and isinstance(loops[0].target, ast.Name) else None
+        if isinstance(k, ast.Name) and lv:
             for d in rd.reaching(k.id, n):
-                if d.value is not None and "default_key_for" in src(d.value) and "buf['turn_id']" in src(d.value) and "slice_idx" in src(d.value) and "apply.jsonl" in src(d.value):
-                    ok = True
-        ctx.check(ok, "C10.COMMIT", f"{fn.qual}/apply-record-key@{n.lineno}", fn.loc(c), "the apply record is staged under default_key_for('apply.jsonl', buf.turn_id, buf.slice_idx)",
+                if d.value is not None and "default_key_for" in src(d.value):
+                    kws = {kw.arg: kw.value for y in ast.walk(d.value) if isinstance(y, ast.Call) for kw in y.keywords}
+                    if const_str(kws.get("file_path")) == "apply.jsonl" and src(kws.get("turn_id")).replace('"', "'") == f"{lv}['turn_id']" and "slice_idx" in kws and lv in src(kws["slice_idx"]):
+                        ok = True
+        ctx.check(ok, "C10.COMMIT", f"{fn.qual}/apply-record-key#{i_s}", fn.loc(c), "the apply record is staged under default_key_for('apply.jsonl', buf.turn_id, buf.slice_idx)",
                   "the apply record is not keyed by the buffer's (turn_id, slice_idx)")
     sb = ctx.func(PAR + ":_sort_turn_buffers")
     okk = any(isinstance(x, ast.Call) and dotted(x.func) == "sorted" and kwarg(x, "key") is not None for x in walk_no_defs(sb.node))
@@ -156,32 +174,38 @@ def rule_commit(ctx) -> None:
 def rule_batch(ctx) -> None:
     fn = ctx.func(PAR + ":_select_independent_batch")
     cfg = ctx.cfg(fn)
-    apps = [(n, c) for n in cfg.nodes for c in node_calls(n) if call_tail(c) == "append" and src(c.func.value) == "picked"]
+    _ret = {r.value.id for r in walk_no_defs(fn.node) if isinstance(r, ast.Return) and isinstance(r.value, ast.Name)}
+    apps = [(n, c) for n in cfg.nodes for c in node_calls(n) if call_tail(c) == "append" and src(c.func.value) in _ret]
     ctx.floor("C10.BATCH", "picked.append sites", len(apps), 1)
     for n, c in apps:
         facts = cfg.facts(n)
-        ok = any(p and t.startswith("used.isdisjoint(") for t, p in facts)
+        sets = {(x.targets[0] if isinstance(x, ast.Assign) else x.target).id for x in walk_no_defs(fn.node) if isinstance(x, (ast.Assign, ast.AnnAssign)) and x.value is not None
+                and isinstance(x.value, ast.Call) and dotted(x.value.func) == "set" and isinstance((x.targets[0] if isinstance(x, ast.Assign) else x.target), ast.Name)}
+        ok = any(p and any(t.startswith(f"{u}.isdisjoint(") for u in sets) for t, p in facts)
         ctx.check(ok, "C10.BATCH", f"{fn.qual}/disjointness-guard", fn.loc(c), "an agent is picked only where used.isdisjoint(its graph set)",
                   "an agent can be picked although its graphs overlap an already selected agent")
-        upd = [m for m in cfg.nodes if any(call_tail(x) == "update" and src(x.func.value) == "used" for x in node_calls(m))]
+        upd = [m for m in cfg.nodes if any(call_tail(x) == "update" and src(x.func.value) in sets for x in node_calls(m))]
         heads = [h for h in cfg.nodes if h.kind == "iter"]
         p = cfg.path([n], lambda x: x in heads or x is cfg.exit, avoid=lambda x: x in upd, edge_ok=no_exc, include_start=False)
         ctx.check(bool(upd) and p is None, "C10.BATCH", f"{fn.qual}/used-updated", fn.loc(c), "each pick is followed by used.update(its graph set)", "a picked agent's graphs are not added to the used set",
                   ctx.path_witness(fn, p))
         gs = c.args[0] if c.args else None
-        lim = any((not p) and "len(picked) >= limit" in t for t, p in facts)
+        lim = any((not p) and any(t.replace(" ", "").startswith(f"len({r})>=") for r in _ret) for t, p in facts)
         ctx.check(lim, "C10.BATCH", f"{fn.qual}/limit-tested-first", fn.loc(c), "the worker limit is tested before each pick", "the worker limit does not bound the batch")
     drv = ctx.func(BATCH)
     dcfg = ctx.cfg(drv)
-    comp = [(n, c) for n in dcfg.nodes for c in node_calls(n) if isinstance(c.func, ast.Name) and c.func.id == "run_turn_compute"]
+    _rc = _orch_locals(drv, "_run_turn_compute")
+    comp = [(n, c) for n in dcfg.nodes for c in node_calls(n) if isinstance(c.func, ast.Name) and c.func.id in _rc]
+    picked_vars = {x.targets[0].id for x in walk_no_defs(drv.node) if isinstance(x, ast.Assign) and len(x.targets) == 1 and isinstance(x.targets[0], ast.Name)
+                   and isinstance(x.value, ast.Call) and call_tail(x.value) == "_select_independent_batch"}
     ctx.floor("C10.BATCH", "compute call sites", len(comp), 1)
     for n, c in comp:
         facts = dcfg.facts(n)
-        ok = any((not p) and t == "aid not in picked" for t, p in facts) or any(p and t == "aid in picked" for t, p in facts)
+        ok = any((not p) and any(t.endswith(f" not in {pv}") for pv in picked_vars) for t, p in facts) or any(p and any(t.endswith(f" in {pv}") and " not in " not in t for pv in picked_vars) for t, p in facts)
         ctx.check(ok, "C10.BATCH", f"{drv.qual}/compute-only-picked", drv.loc(c), "only picked agents are computed", "an agent outside the independent batch is computed")
-        okb = len(c.args) >= 2 and src(c.args[1]) == "base"
+        okb = len(c.args) >= 2 and isinstance(c.args[1], ast.Name)
         rdd = ctx.rd(drv)
-        bd = [d for d in rdd.all_defs if d.name == "base" and d.value is not None]
+        bd = [d for d in rdd.all_defs if okb and d.name == c.args[1].id and d.value is not None]
         okb = okb and bool(bd) and all(call_tail(d.value) == "_make_readonly_snapshot" for d in bd if isinstance(d.value, ast.Call))
         ctx.check(okb, "C10.BATCH", f"{drv.qual}/compute-on-snapshot", drv.loc(c), "every compute phase runs on the same read-only snapshot taken before the batch",
                   "the compute phase does not run on the read-only snapshot")
@@ -191,17 +215,17 @@ def rule_stage(ctx) -> None:
     fn = ctx.func(BATCH)
     cfg = ctx.cfg(fn)
     rd = ctx.rd(fn)
-    stages = [(n, c) for n in cfg.nodes for c in node_calls(n) if call_tail(c) == "stage" and src(c.func.value) == "stager"]
+    stages = [(n, c) for n in sorted(cfg.nodes, key=lambda x: x.id) for c in node_calls(n) if call_tail(c) == "stage" and isinstance(c.func.value, ast.Name) and len(c.args) == 3]
     ctx.floor("C10.STAGE", "stager.stage call sites", len(stages), 4)
     primary = [(n, c) for n, c in stages if not any(part == "handler" for st, part in enclosing(ctx.prog, fn, c))]
     retries = [(n, c) for n, c in stages if any(part == "handler" for st, part in enclosing(ctx.prog, fn, c))]
-    for n, c in primary:
+    for i_p, (n, c) in enumerate(primary, 1):
         t = None
         for st, part in enclosing(ctx.prog, fn, c):
             if isinstance(st, ast.Try) and part == "body":
                 t = st
                 break
-        key = f"{fn.qual}/backpressure@{n.lineno}"
+        key = f"{fn.qual}/backpressure#{i_p}:{const_str(c.args[0]) or 'captured'}"
         if t is None:
             ctx.violation("C10.STAGE", key, fn.loc(c), "stager.stage is not wrapped by the back-pressure handler")
             continue
@@ -222,16 +246,18 @@ def rule_stage(ctx) -> None:
         ctx.check(ok, "C10.STAGE", key, fn.loc(c), "on LOG_STAGING_BACKPRESSURE: drain_sorted -> write each -> retry the same record exactly once; other errors re-raised",
                   f"back-pressure handling deviates from the protocol ({why}): a record can be lost, duplicated or reordered depending on the staging limit")
     # per-record key provenance in the capture loop
-    for n, c in primary:
+    for i_p, (n, c) in enumerate(primary, 1):
         if c.args and const_str(c.args[0]) == "apply.jsonl":
             continue
         k = c.args[1] if len(c.args) > 1 else None
         ok = False
         if isinstance(k, ast.Name):
             for d in rd.reaching(k.id, n):
-                if d.value is not None and "default_key_for" in src(d.value) and "file_path=file_path" in src(d.value).replace(" ", "") and "turn_id" in src(d.value) and "slice_idx" in src(d.value):
-                    ok = True
-        ctx.check(ok, "C10.STAGE", f"{fn.qual}/captured-record-key@{n.lineno}", fn.loc(c), "each captured record is keyed by default_key_for(its file, buf.turn_id, buf.slice_idx)",
+                if d.value is not None and "default_key_for" in src(d.value):
+                    kws = {kw.arg: kw.value for y in ast.walk(d.value) if isinstance(y, ast.Call) for kw in y.keywords}
+                    if "file_path" in kws and src(kws["file_path"]) == src(c.args[0]) and "turn_id" in kws and "slice_idx" in kws:
+                        ok = True
+        ctx.check(ok, "C10.STAGE", f"{fn.qual}/captured-record-key#{i_p}", fn.loc(c), "each captured record is keyed by default_key_for(its file, buf.turn_id, buf.slice_idx)",
                   "a captured record is staged without the (turn, stage, slice) key")
     # final drain post-dominates the commit loop on the normal exit; staging disabled afterwards
     commit_loops = [n for n in cfg.nodes if n.kind == "iter" and isinstance(n.ast.iter, ast.Call) and call_tail(n.ast.iter) == "_sort_turn_buffers"]
@@ -248,7 +274,8 @@ def rule_stage(ctx) -> None:
                   "staging stays enabled after the batch on some normal path")
     for f in finals:
         w = [x for x in ast.walk(f.ast) if isinstance(x, ast.Call) and call_tail(x) == "_append_unbuffered"]
-        ok = bool(w) and all(src(a).startswith("rec.") for a in w[0].args)
+        lv = f.ast.target.id if isinstance(f.ast.target, ast.Name) else "?"
+        ok = bool(w) and all(src(a).startswith(lv + ".") for a in w[0].args)
         ctx.check(ok, "C10.STAGE", f"{fn.qual}/final-drain-writes", fn.loc(f.ast), "each drained record is written with its own (file_path, payload)", "the final drain does not write each record")
     en = [n for n in cfg.nodes if any(isinstance(c.func, ast.Call) and c.func.args and const_str(c.func.args[0]) == "enable_staging" for c in node_calls(n))]
     exc_p = cfg.path(en, lambda x: x is cfg.raise_, avoid=lambda x: x in dis, include_start=False) if en else None
@@ -291,10 +318,14 @@ def rule_sib(ctx) -> None:
     fn = ctx.func(BATCH)
     cfg = ctx.cfg(fn)
     pe = PathEval(ctx)
-    sites = [(n, c) for n in cfg.nodes for c in node_calls(n) if (isinstance(c.func, ast.Name) and c.func.id == "apply_changes") or (call_tail(c) == "stage" and c.args and const_str(c.args[0]) == "apply.jsonl")]
+    _ac = _orch_locals(fn, "apply_changes")
+    sites = [(n, c) for n in sorted(cfg.nodes, key=lambda x: x.id) for c in node_calls(n) if (isinstance(c.func, ast.Name) and c.func.id in _ac) or (call_tail(c) == "stage" and c.args and const_str(c.args[0]) == "apply.jsonl")]
+    _ord: Dict[str, int] = {}
     for n, c in sites:
         ok = gate_on(ctx, fn, n, pe, "cfg:t4.enabled")
-        ctx.check(ok, "C10.SIB", f"{fn.qual}/kill-switch:{call_tail(c) or 'apply_changes'}@{n.lineno}", fn.loc(c), "the commit step is dominated by cfg:t4.enabled like in run_turn",
+        _kind = "apply_changes" if (isinstance(c.func, ast.Name) and c.func.id in _ac) else "stage"
+        _ord[_kind] = _ord.get(_kind, 0) + 1
+        ctx.check(ok, "C10.SIB", f"{fn.qual}/kill-switch:{_kind}#{_ord[_kind]}", fn.loc(c), "the commit step is dominated by cfg:t4.enabled like in run_turn",
                   "the commit phase applies / logs with the T4 kill switch off")
     # the sequential fallback runs the plain turn (not a dry run)
     seq = [(n, c) for n in cfg.nodes for c in node_calls(n) if call_tail(c) == "run_turn"]
